@@ -706,6 +706,13 @@ def _resolve_callee(model, func, call):
             cur = cur.parent
         if f.id in mod.funcs and mod.funcs[f.id].cls is None and mod.funcs[f.id].parent is None:
             return mod.funcs[f.id], 0
+        imp = mod.imports.get(f.id)
+        if imp and imp.startswith('pkg:'):
+            modname, _, fname = imp[4:].rpartition('.')
+            m = model.modules.get(modname)
+            target = m.funcs.get(fname) if m is not None else None
+            if target is not None and target.cls is None and target.parent is None:
+                return target, 0
         return None, 0
     if isinstance(f, ast.Attribute) and isinstance(f.value, ast.Name):
         base = f.value.id
@@ -806,6 +813,61 @@ def _passed_somewhere(model, func, name, index):
     return False
 
 
+def _genexp_function(target):
+    """(target, iter, condition or None, element) if the function is nothing but ``for T in IT: [if C:] yield E``."""
+    body = [st for st in target.node.body if not (isinstance(st, ast.Expr) and isinstance(st.value, ast.Constant))]
+    a = target.node.args
+    if len(body) != 1 or not isinstance(body[0], ast.For) or body[0].orelse or a.vararg or a.kwarg or a.kwonlyargs or a.defaults or target.node.decorator_list:
+        return None
+    loop = body[0]
+    inner = loop.body
+    cond = None
+    if len(inner) == 1 and isinstance(inner[0], ast.If) and not inner[0].orelse:
+        cond, inner = inner[0].test, inner[0].body
+    if len(inner) != 1 or not (isinstance(inner[0], ast.Expr) and isinstance(inner[0].value, ast.Yield) and inner[0].value.value is not None):
+        return None
+    return loop.target, loop.iter, cond, inner[0].value.value
+
+
+class _T14(ast.NodeTransformer):
+    """T14: a call of a *new* generator function that is only ``for T in IT: [if C:] yield E`` -> the generator expression
+    ``(E for T in IT if C)`` with the arguments substituted (plain-name arguments only); ``list(<genexp>)`` -> list
+    comprehension."""
+
+    def __init__(self, model, func):
+        self.model, self.func = model, func
+
+    def visit_Call(self, n):
+        self.generic_visit(n)
+        if isinstance(n.func, ast.Name) and n.func.id == 'list' and len(n.args) == 1 and not n.keywords and isinstance(n.args[0], ast.GeneratorExp):
+            g = n.args[0]
+            return ast.copy_location(ast.ListComp(elt=g.elt, generators=g.generators), n)
+        if n.keywords or any(not isinstance(a, (ast.Name, ast.Attribute, ast.Constant)) for a in n.args):
+            return n
+        target, skip = _resolve_callee(self.model, self.func, n)
+        if target is None or skip or target.key in PINNED_SIGNATURES or target is self.func:
+            return n
+        shape = _genexp_function(target)
+        if shape is None or len(n.args) != len(target.params):
+            return n
+        tgt, it, cond, elt = (copy.deepcopy(x) if x is not None else None for x in shape)
+        locals_ = {x.id for x in ast.walk(tgt) if isinstance(x, ast.Name)}
+        if locals_ & {x.id for a in n.args for x in ast.walk(a) if isinstance(x, ast.Name)}:
+            return n
+        mapping = dict(zip(target.params, n.args))
+        sub = _Subst(mapping)
+        comp = ast.comprehension(target=tgt, iter=sub.visit(it), ifs=[sub.visit(cond)] if cond is not None else [], is_async=0)
+        new = ast.GeneratorExp(elt=sub.visit(elt), generators=[comp])
+        ast.copy_location(new, n)
+        for x in ast.walk(new):
+            if not hasattr(x, 'lineno') and isinstance(x, (ast.expr, ast.stmt)):
+                ast.copy_location(x, n)
+        return self.visit_Call_again(new, n)
+
+    def visit_Call_again(self, new, n):
+        return new
+
+
 def t12_new_parameters(model, func, node):
     """T12: a parameter that the pinned tree's signature of this function does not have, that has a literal default and is
     never rebound, is replaced by that default (then folded).  The properties quantify over the API as it is documented
@@ -861,6 +923,9 @@ def normalize_function(model, func):
         return block
 
     t12_new_parameters(model, func, node)
+    node = _T14(model, func).visit(node)
+    node = _T14(model, func).visit(node)      # list(<the generator expression just produced>)
+    holder.body = [node]
     transform_blocks(node, passes)
     node = _T7().visit(node)
     t10_keywords_to_positional(model, func, node)
